@@ -366,6 +366,18 @@ def main(ctx, args):
                 if not ctx.quick or (loc == "" and arg in ("", " #", " x", " !x")):      # the same typed at the prompt of visual mode
                     corpus.append({"origin": "corpus/excmd-args-vi", "vi": True, "cps": [ord(c) for c in ":" + line + "\x1b:e other\n:" + line + "\x1b"], "size": (8, 40),
                                    "file": "one\ntwo a b\nthree\n", "exinit": "", "k": -1})
+    # every option (read from the option table of the tree under test) set to small, negative and huge values, then a stream that
+    # inserts, searches, prints, scrolls, splits windows, repeats prompts (history) and redraws
+    onames = re.findall(r'\{"([a-z]+)", "[a-z]+", &x[a-z]+\}', open(os.path.join(REPO, "ex.c")).read())
+    exercise = ("ia\tb \u05e9\u05dc\u05d5\u05dd c\n\t\tdeep \u6f22\n\x1b:p\n:1,$p\n/a\n?b\n:s/a/x/\n::\n/\n$0w\x0c\x05\x19\x17s\x17jGo2\x1b\x17kdd\x17ou\x12"
+                ":e other\n:e #\n:w! o1\n:\x10\n/\x10\n!!tr a-z A-Z\n")
+    for on in onames:
+        for val in (-99999, -2, -1, 0, 1, 2, 3, 7, 99999, 2147483647):
+            for size in ((24, 80), (4, 12)):
+                corpus.append({"origin": "corpus/options", "vi": True, "cps": [ord(c) for c in ":se %s=%d\n" % (on, val) + exercise], "size": size,
+                               "file": "one\ntwo\n", "exinit": "", "k": -1})
+            corpus.append({"origin": "corpus/options", "vi": False, "cps": [ord(c) for c in "se %s=%d\na\nx\ty\n.\n1,$p\ns/x/y/\n/y/\ne other\ne #\nw! o2\n" % (on, val)],
+                           "size": (24, 80), "file": "one\ntwo\n", "exinit": "", "k": -1})
     # every two-key vi command: a prefix key (operators, g z ^W [ ] " ' ` m @ q Z r f F t T) followed by every byte 1..126 except ^Z,
     # each as a stream of its own on a small text (thorough: also in the empty buffer, and with a count in front)
     prefixes = ["g", "z", "\x17", "[", "]", "\"", "'", "`", "m", "@", "q", "Z", "r", "f", "F", "t", "T", "c", "d", "y", "<", ">", "!", "\x17g"]
@@ -386,7 +398,7 @@ def main(ctx, args):
     for s, r in zip(streams + corpus, results):
         st["records"] += r["nrec"]
         o = re.sub(r"^[ev][0-9a-f]{2}\.sh", "repo-tests", s["origin"])
-        o = re.sub(r"/\w+", "", o)
+        o = o if o.startswith("corpus/") else re.sub(r"/\w+", "", o)
         st["by_origin"][o] = st["by_origin"].get(o, 0) + 1
         if not r["complete"]:
             body = txt(s["cps"])
